@@ -251,7 +251,11 @@ def esp32_entry():
     facts.load_units(units)
     if units[0].ast is None:
         raise AnalysisBroken('esp32 unit does not parse: %s' % units[0].error)
-    prog = facts.Program(units)
+    # together with the core, so that whatever core function the entry point hands the frame to (today none besides the
+    # automata steps, which are summarised) is interpreted on a buffer of exactly the told length
+    core = [u for u in facts.compile_db() if u.config == 'systemd' and u.path in facts.CORE_UNITS]
+    facts.load_units(core)
+    prog = facts.Program(units + [u for u in core if u.ast is not None])
     ix = prog.unit(ESP32_UNIT)
     if 'lltd_esp32_handle_frame' not in ix.functions:
         raise AnalysisBroken('anchor lltd_esp32_handle_frame vanished')
